@@ -1,11 +1,11 @@
 SPECIFICATION Spec
 CONSTANTS
   MaxH = 2
-  MaxR = 2
+  MaxR = 1
   Blocks = {"A","B"}
-  MaxCrash = 2
-  Conc = FALSE
-  MaxFail = 2
+  MaxCrash = 1
+  Conc = TRUE
+  MaxFail = 1
 VIEW view
 INVARIANTS TypeOK DiskCoversReleased MemIsDisk MainIsWhole
 PROPERTIES NoConflictingRelease Monotone DurableBeforeRelease DiskMonotone
